@@ -211,16 +211,23 @@ def run_case(ck, desc):
         ck.count("fits_with_initial_guess_below_highest_frac_face_pressure")
     with warnings.catch_warnings(), np.errstate(all="ignore"):
         warnings.simplefilter("ignore")
-        result = fit_production_pressure(
-            prod,
-            pvt,
-            pressure_initial=guess,
-            filter_window_size=desc["window"],
-            pressure_imax=desc["imax"],
-            inplace_max=inplace_max,
-            filter_zero_prod_days=desc["filter"],
-            n_iter=desc["n_iter"],
-        )
+        if desc["seed"] % 2:
+            # every option given POSITIONALLY, in the documented order of the signature
+            # (prod_data, pvt_table, pressure_initial, filter_window_size, pressure_imax, inplace_max,
+            #  filter_zero_prod_days, n_iter): the stated maximum is the fifth argument
+            result = fit_production_pressure(prod, pvt, guess, desc["window"], desc["imax"], inplace_max, desc["filter"], desc["n_iter"])
+            ck.count("fits_called_positionally")
+        else:
+            result = fit_production_pressure(
+                prod,
+                pvt,
+                pressure_initial=guess,
+                filter_window_size=desc["window"],
+                pressure_imax=desc["imax"],
+                inplace_max=inplace_max,
+                filter_zero_prod_days=desc["filter"],
+                n_iter=desc["n_iter"],
+            )
     if not instrument.same_snapshot(snap, instrument.snapshot(prod)):
         ck.violation("caller-table-unmodified", {}, desc)
     evals = OBJ[:]
